@@ -22,6 +22,11 @@ type VerifC07Test struct {
 	RawReq   bool   `json:"rawReq"`
 	RawResp  bool   `json:"rawResp"`
 	Expected bool   `json:"expected"`
+	// Pre: fields of the request template that the runner documents as auto-populated are
+	// already set in the suite file (e.g. a request pasted from a capture): protocol, version,
+	// codec, compression, host/port, TLS certificate and client credentials. Expansion must
+	// overwrite them from the config case; the Lean model has no such field, which is that claim.
+	Pre bool `json:"pre,omitempty"`
 }
 
 // VerifC07Suite is the abstract description of a TestSuite (plus the file it is defined in).
@@ -80,6 +85,16 @@ func VerifC07Build(s VerifC07Suite) *conformancev1.TestSuite {
 		}
 		if t.RawReq {
 			req.RawRequest = &conformancev1.RawHTTPRequest{Verb: "POST", Uri: "/verif"}
+		}
+		if t.Pre {
+			req.HttpVersion = conformancev1.HTTPVersion_HTTP_VERSION_3
+			req.Protocol = conformancev1.Protocol_PROTOCOL_GRPC_WEB
+			req.Codec = conformancev1.Codec_CODEC_JSON
+			req.Compression = conformancev1.Compression_COMPRESSION_SNAPPY
+			req.Host, req.Port = "stale.example", 1
+			req.ServerTlsCert = []byte("stale certificate")
+			req.ClientTlsCreds = &conformancev1.TLSCreds{Cert: []byte("stale"), Key: []byte("stale")}
+			req.MessageReceiveLimit = 7
 		}
 		if t.RawResp {
 			raw := &conformancev1.RawHTTPResponse{StatusCode: 200}
